@@ -62,6 +62,13 @@ Cb(k, v)  == Ent("cb", k, v, "")
 \* at = the instant; d = 1: caused by the subscriber's dispose() (its virtual time is the dispose call's)
 Stamp(em, at, d) == [j \in 1..Len(em) |-> [w |-> em[j].w, k |-> em[j].k, v |-> em[j].v, e |-> em[j].e, at |-> at, d |-> d]]
 
+\* do_action takes up to three callbacks; a missing one means "just forward":
+\*   do_action: all three;  do_action_n: on_next only;  do_action_ec: on_error and on_completed only;  do_action_0: none
+DoActions == {"do_action", "do_observer", "do_action_n", "do_action_ec", "do_action_0"}
+Given(o) == CASE o \in {"do_action", "do_observer"} -> {"next", "error", "completed"}
+              [] o = "do_action_n"  -> {"next"}
+              [] o = "do_action_ec" -> {"error", "completed"}
+              [] OTHER              -> {}
 NoFault == [w |-> "none", k |-> 0]
 PerElem == {"next", "after_next"}
 
@@ -69,8 +76,8 @@ FaultsOf(o) ==
   {NoFault} \cup
   (IF ~Faults THEN {} ELSE
    CASE o = "using"                      -> {[w |-> "resfac", k |-> 0], [w |-> "obsfac", k |-> 0], [w |-> "resnone", k |-> 0]}
-     [] o \in {"do_action", "do_observer"} -> {[w |-> "next", k |-> k] : k \in 1..MaxLen}
-                                              \cup {[w |-> "error", k |-> 0], [w |-> "completed", k |-> 0]}
+     [] o \in DoActions                   -> {[w |-> "next", k |-> k] : k \in (IF "next" \in Given(o) THEN 1..MaxLen ELSE {})}
+                                              \cup {[w |-> c, k |-> 0] : c \in Given(o) \ {"next"}}
      [] o = "do_after_next"              -> {[w |-> "after_next", k |-> k] : k \in 1..MaxLen}
      [] o = "do_on_subscribe"            -> {[w |-> "subscribe", k |-> 0]}
      [] o = "do_on_terminate"            -> {[w |-> "terminate", k |-> 0]}
@@ -122,11 +129,12 @@ Fwd(o, f, s, ev) ==
   LET c  == s.cnt + 1
       T(em) == [em |-> em, fin |-> TRUE]
       G(em) == [em |-> em, fin |-> FALSE] IN
-  CASE o \in {"do_action", "do_observer"} ->
-         (CASE ev.k = "N" -> IF f.w = "next" /\ f.k = c THEN T(<<Cb("next", ev.v), SinkE("fn")>>)
-                             ELSE G(<<Cb("next", ev.v), Sink(ev)>>)
-            [] ev.k = "E" -> IF f.w = "error" THEN T(<<Cb("error", 0), SinkE("fn")>>) ELSE T(<<Cb("error", 0), Sink(ev)>>)
-            [] OTHER      -> IF f.w = "completed" THEN T(<<Cb("completed", 0), SinkE("fn")>>) ELSE T(<<Cb("completed", 0), Sink(ev)>>))
+  CASE o \in DoActions ->
+         (LET name == CASE ev.k = "N" -> "next" [] ev.k = "E" -> "error" [] OTHER -> "completed"
+              tap  == IF name \in Given(o) THEN <<Cb(name, IF ev.k = "N" THEN ev.v ELSE 0)>> ELSE <<>>
+              bad  == f.w = name /\ (ev.k # "N" \/ f.k = c) IN
+          IF bad THEN T(tap \o <<SinkE("fn")>>)
+          ELSE IF ev.k = "N" THEN G(tap \o <<Sink(ev)>>) ELSE T(tap \o <<Sink(ev)>>))
     [] o = "do_after_next" ->
          (IF ev.k = "N"
           THEN IF f.w = "after_next" /\ f.k = c THEN T(<<Sink(ev), Cb("after_next", ev.v), SinkE("fn")>>)
@@ -302,8 +310,10 @@ RefSink(s) ==
 RefTap(s) ==
   LET n == IF FaultAt(s) # 0 THEN FaultAt(s) ELSE Delivered(s)
       evs == [j \in 1..n |-> Ev(j)] IN
-  CASE op \in {"do_action", "do_observer"} ->
-         [j \in 1..n |-> IF evs[j].k = "N" THEN Cb("next", evs[j].v) ELSE IF evs[j].k = "E" THEN Cb("error", 0) ELSE Cb("completed", 0)]
+  CASE op \in DoActions ->
+         \* every notification that reached the operator and for whose kind a callback was given
+         LET all == [j \in 1..n |-> IF evs[j].k = "N" THEN Cb("next", evs[j].v) ELSE IF evs[j].k = "E" THEN Cb("error", 0) ELSE Cb("completed", 0)] IN
+         SelectSeq(all, LAMBDA x : x.k \in Given(op))
     [] op = "do_after_next" -> LET m == Min2(n, Len(src)) IN [j \in 1..m |-> Cb("after_next", src[j])]
     [] op = "do_on_terminate" -> IF n = SrcLen /\ term # "U" THEN <<Cb("terminate", 0)>> ELSE <<>>
     [] op = "do_after_terminate" -> IF n = SrcLen /\ term # "U" THEN <<Cb("after_terminate", 0)>> ELSE <<>>
